@@ -274,6 +274,26 @@ theorem C07_fn_validate_mutual_close_tx {W D : Type} (p : Policy) (s : Setup) (e
             simp only [e1, e2, e3, q1, q3, relK_bind, relK_checked_add, hfee, relK_ok, relK_pure, bind_assoc, pure_bind] <;>
             (simp [check_false, bind_unit_ok, bne_dec, ok_bind_K]; try rfl)
 
+/-- **`OnchainValidator::validate_mutual_close_tx` over the simple validator** (what `OnchainValidatorFactory` builds):
+    the pass-through hands every argument on unchanged, in particular the two values in their order, so the composition
+    is `validateMutualClose` as well -/
+theorem C07_fn_onchain_validate_mutual_close_tx {W D : Type} (p : Policy) (s : Setup) (e : EState) (a : Args)
+    (w : W) (path : D)
+    (extW : Nat → Nat → Option Nat → Option Nat → Gen.FnSimpleClose.ChannelSetup Nat → Nat)
+    (extC : W → D → Nat → Option Bool) (extA : W → Nat → D → Bool)
+    (hW : extW a.toHolder a.toCounterparty (a.holderScript.map (·.sid)) (a.cpScript.map (·.sid)) (toCS3 s) = closeWeight a)
+    (hC : ∀ o, a.holderScript = some o → extC w path o.sid = some o.canSpend)
+    (hA : ∀ o, a.holderScript = some o → extA w o.sid path = o.allowlisted)
+    (hv : s.channelValue ≤ Rs.U64_MAX) :
+    relK (Gen.FnSimpleClose.OnchainValidator.validate_mutual_close_tx
+            (fun _ wl st es th tc hs cs pt => Gen.FnSimpleClose.SimpleValidator.validate_mutual_close_tx (filt p) extW extC extA
+              (toV3 p) wl st es th tc hs cs pt)
+            ({ inner := () } : Gen.FnSimpleClose.OnchainValidator Unit) w (toCS3 s) (toES3 e)
+            a.toHolder a.toCounterparty (a.holderScript.map (·.sid)) (a.cpScript.map (·.sid)) path)
+      = validateMutualClose p s e a := by
+  unfold Gen.FnSimpleClose.OnchainValidator.validate_mutual_close_tx
+  exact C07_fn_validate_mutual_close_tx p s e a w path extW extC extA hW hC hA hv
+
 /-! ### non-vacuity: a concrete, accepted close (funder, both outputs present, wallet-spendable holder script) -/
 
 def exPolicy : Policy := { Gen.Policy.defaultTestnet with onchain := false }
